@@ -1,5 +1,7 @@
-import MsqProofs.Lemmas.ParseWN
+import MsqProofs.Lemmas.ParseWNShape
 import MsqProofs.Lemmas.ParseMono
+import MsqModel.Parse.Entry
+import MsqModel.Driver.ShowVal
 /-!
 # C02 — for EVERY accepted token list: the returned tree is the one the documented grammar derives from the consumed tokens
 
@@ -125,5 +127,85 @@ theorem parse_deterministic (d : Gen.D) (f f' : Nat) (ts : List Tok) (e e' : Exp
   rw [a] at b
   simp only [Except.ok.injEq, Prod.mk.injEq] at b
   exact b
+
+
+/-! ### `Derives` and the printer's level function: the shape of every operand -/
+
+/-- **shape of an operand** (restated from `WNG.derives_shape`): a tree derived at level `L` has `PR.lvl ≤ L` (≤ 2 at the prefix
+level 1) unless the whole token list is ONE bracket group.  Read at the operand positions of the productions of `Derives`: the
+right operand of an OR node derives at level 13 — it is no OR node unless it was written in brackets; the left one may be
+(left associativity); the same at every level of the table. -/
+theorem derives_shape (d : Gen.D) (L : Nat) (ts : List Tok) (e : Expr) (h : Derives d L ts e) :
+    PR.lvl e ≤ max L 2 ∨ ∃ g, ts = [g] ∧ g.has PAREN = true := WNG.derives_shape h
+
+/-- at the parser, e.g. for `_parse_compute_expression` (GROUP BY / ORDER BY items, IN-list members, BETWEEN bounds …): the tree is
+of a compute level, or the consumed tokens are one bracket group -/
+theorem parse_shape_compute (d : Gen.D) (f : Nat) (ts : List Tok) (e : Expr) (rest : List Tok) (h : pCompute d f ts = .ok (e, rest)) :
+    ∃ used, ts = used ++ rest ∧ (PR.lvl e ≤ 8 ∨ ∃ g, used = [g] ∧ g.has PAREN = true) := by
+  obtain ⟨u, hu, hd⟩ := parse_derives_compute d f ts e rest h
+  exact ⟨u, hu, by simpa using WNG.derives_shape hd⟩
+theorem parse_shape_keyword (d : Gen.D) (f : Nat) (ts : List Tok) (e : Expr) (rest : List Tok) (h : pKeyword d f none ts = .ok (e, rest)) :
+    ∃ used, ts = used ++ rest ∧ (PR.lvl e ≤ 9 ∨ ∃ g, used = [g] ∧ g.has PAREN = true) := by
+  obtain ⟨u, hu, hd⟩ := parse_derives_keyword d f ts e rest h
+  exact ⟨u, hu, by simpa using WNG.derives_shape hd⟩
+theorem parse_shape_not (d : Gen.D) (f : Nat) (ts : List Tok) (e : Expr) (rest : List Tok) (h : pNot d f ts = .ok (e, rest)) :
+    ∃ used, ts = used ++ rest ∧ (PR.lvl e ≤ 11 ∨ ∃ g, used = [g] ∧ g.has PAREN = true) := by
+  obtain ⟨u, hu, hd⟩ := parse_derives_not d f ts e rest h
+  exact ⟨u, hu, by simpa using WNG.derives_shape hd⟩
+
+/-! ### non-vacuity and witnesses -/
+namespace W02
+def ta : Tok := Tok.single "a".toList 2
+def tb : Tok := Tok.single "b".toList 2
+def tor : Tok := Tok.single "OR".toList 0
+def tmi : Tok := Tok.single "-".toList 0
+def ca : Expr := .column none "a"
+def cb : Expr := .column none "b"
+theorem da : Derives .MYSQL 0 [ta] ca := Derives.column (t := ta) (by rfl) (by rfl)
+theorem db : Derives .MYSQL 0 [tb] cb := Derives.column (t := tb) (by rfl) (by rfl)
+end W02
+open W02
+
+/-- non-vacuity of `parse_derives` (kernel-checked run of the model on tokens) and of `Derives` (a derivation built by hand) -/
+example : ∃ used, [ta, tor, tb] = used ++ [] ∧ Derives .MYSQL 14 used (.or_ ca cb) :=
+  parse_derives .MYSQL 30 [ta, tor, tb] _ [] (by rfl)
+example : Derives .MYSQL 14 [ta, tor, tb] (.or_ ca cb) :=
+  Derives.or_ (l := [ta]) (da.up (by omega)) (by rfl) (db.up (by omega))
+
+/-- **`Derives` is not functional** (why there is no `derives_unique` for the relation as it stands): the code accepts ANY token as
+a column name (DEVIATION 2), so `a - - - b` also derives `(a - "-") - b`, with the second `-` read as a column; the parser
+returns `a - (-(-b))` (`parse_derives` only says the returned tree is ONE of the derivable ones). -/
+theorem derives_not_unique_witness :
+    ∃ (ts : List Tok) (e e' : Expr), Derives .MYSQL 8 ts e ∧ Derives .MYSQL 8 ts e' ∧ e ≠ e' := by
+  have hop : computeOp? (up tmi.src) = some ("SUBTRACT", 5) := by rfl
+  have hun : isUnary .MYSQL tmi = true := by rfl
+  have u1 : Derives .MYSQL 1 [tmi, tb] (.unary "SUBTRACT" cb) := .unary hun hop (db.up (by omega))
+  have u2 : Derives .MYSQL 1 [tmi, tmi, tb] (.unary "SUBTRACT" (.unary "SUBTRACT" cb)) := .unary hun hop u1
+  have d1 : Derives .MYSQL 5 ([ta] ++ tmi :: [tmi, tmi, tb]) (.compute ca "SUBTRACT" (.unary "SUBTRACT" (.unary "SUBTRACT" cb))) :=
+    .compute hop (da.up (by omega)) (u2.up (by omega))
+  have cm : Derives .MYSQL 0 [tmi] (.column none (unifyName tmi.src)) := .column (by rfl) (by rfl)
+  have i2 : Derives .MYSQL 5 ([ta] ++ tmi :: [tmi]) (.compute ca "SUBTRACT" (.column none (unifyName tmi.src))) :=
+    .compute hop (da.up (by omega)) (cm.up (by omega))
+  have d2 : Derives .MYSQL 5 (([ta] ++ tmi :: [tmi]) ++ tmi :: [tb]) (.compute (.compute ca "SUBTRACT" (.column none (unifyName tmi.src))) "SUBTRACT" cb) :=
+    .compute hop i2 (db.up (by omega))
+  refine ⟨[ta, tmi, tmi, tmi, tb], _, _, d1.up (by omega), d2.up (by omega), ?_⟩
+  intro h
+  injection h with h1 _ _
+  simp [ca] at h1
+
+/-! evaluated witnesses on the model (tests: `String` functions do not reduce in the kernel), each confirmed on the real code:
+DEVIATION 1 — `a ~ b ^ c` is `(a ~ b) ^ c`, `a ! b` is accepted (MySQL); DEVIATION 2 — `a + AND` is `a + "AND"`;
+DEVIATION 3 — `a NOT IS NOT b` stops after `a IS NOT "NOT"` (one token left); DEVIATION 4 — `a IN (1,,2)` = `a IN (1,2)`. -/
+private def showOr (d : Gen.D) (s : String) : String :=
+  match parseText "logical_or_level_expression" d s.toList with | .ok (v, k) => Drv.showVal v ++ s!" /{k}" | .error e => "ERR " ++ e.show
+#guard showOr .MYSQL "a ~ b ^ c" == showOr .MYSQL "(a ~ b) ^ c"
+#guard showOr .MYSQL "a ~ b ^ c" != showOr .MYSQL "a ~ (b ^ c)"
+#guard (showOr .MYSQL "a ! b").startsWith "ASTComputeExpression"
+#guard showOr .MYSQL "a + AND" == showOr .MYSQL "a + `AND`"
+#guard (showOr .MYSQL "a NOT IS NOT b").endsWith " /1"
+#guard showOr .MYSQL "a IN (1,,2)" == showOr .MYSQL "a IN (1,2)"
+#guard showOr .MYSQL "a - - - b" == showOr .MYSQL "a - (-(-b))"
+#guard showOr .MYSQL "(a)" == showOr .MYSQL "a" && showOr .MYSQL "((a OR b))" == showOr .MYSQL "a OR b"
+#guard showOr .MYSQL "(a OR b) AND c" != showOr .MYSQL "a OR b AND c" && showOr .MYSQL "a OR (b AND c)" == showOr .MYSQL "a OR b AND c"
 
 end C02
